@@ -371,7 +371,8 @@ pub fn eval_function(
         }
         Function::Clamp => {
             let (x, min, max) = args.number_triple()?;
-            if min > max {
+            // `f32::clamp` panics unless min <= max, which a NaN bound never satisfies
+            if min > max || min.is_nan() || max.is_nan() {
                 return Err(SvgdxError::InvalidData(
                     "clamp(x, min, max) - `min` must be <= `max`".to_string(),
                 ));
